@@ -69,6 +69,15 @@ func (vs *VoteStatus) update(voteType VoteType, validatorType params.ValidatorKi
 	}
 }
 
+// clear withdraws a recorded quorum, see the addrDifferentVote case of processVoteMsg.
+func (vs *VoteStatus) clear(voteType VoteType, validatorType params.ValidatorKind) {
+	if validatorType == params.KindChamber && vs.chamber != nil {
+		delete(vs.chamber, voteType)
+	} else if validatorType == params.KindHouse && vs.house != nil {
+		delete(vs.house, voteType)
+	}
+}
+
 func (vs *VoteStatus) status(voteType VoteType, validatorType params.ValidatorKind) bool {
 	if validatorType == params.KindChamber && vs.chamber != nil {
 		return vs.chamber[voteType]
@@ -608,6 +617,15 @@ func (v *Voter) processVoteMsg(ev VoteMsgEvent, status MsgReceivedStatus) (error
 		return nil, false
 
 	case addrDifferentVote:
+		// The weight of the double voter has just been taken out of its first block. If that
+		// block's tally fell below the quorum, the quorum recorded for it does not stand any more.
+		if status == msgSame && voteInfoData != nil {
+			if _, rest := wrapper.getVotes(voteType, voteInfoData.Hash, validatorType); !OverThreshold(rest, threshold, voteType != Certificate) {
+				if vs := v.voteOver[voteInfoData.Hash]; vs != nil {
+					vs.clear(voteType, validatorType)
+				}
+			}
+		}
 		if voteInfoData == nil || voteType == NextIndex {
 			return nil, false
 		}
